@@ -25,7 +25,7 @@ Definition find_opt (tr : bool) (key : list N) (items : list hitem) (dflt : opti
 Definition hdr_step (o : ropts) (ps : pstate) (title : list N) (items : list hitem) (letter : N) : pstate :=
   let sec := mksect items (trc (o_mcase o)) in
   let ps' := update_steering letter sec ps in
-  with_las ps' (route title letter sec (p_las ps')).
+  with_las ps' (route (is_v30 (p_version ps')) title letter sec (p_las ps')).
 
 Lemma step_section_header o ls ps p v items letter :
   section_type (sp_title p) = THeader -> version_of (p_version ps) = Some v ->
@@ -46,25 +46,25 @@ Proof. intros Ht. unfold step_section. rewrite Ht. reflexivity. Qed.
 Lemma no_us_contains title p : in_str 95 title = false -> In 95 p -> contains p title = false.
 Proof. intros H Hin. apply (contains_absent p title 95 Hin H). Qed.
 
-Lemma route_V title sec l : in_str 95 title = false ->
-  route title 86 sec l = mklas sec (l_well l) (l_curves l) (l_params l) (l_other l) (l_custom l) (l_data l) (l_engine_numpy l).
+Lemma route_V v3 title sec l : in_str 95 title = false ->
+  route v3 title 86 sec l = mklas sec (l_well l) (l_curves l) (l_params l) (l_other l) (l_custom l) (l_data l) (l_engine_numpy l).
 Proof.
   intros H. unfold route. rewrite (no_us_contains title (s2l "~Log_Definition") H) by (cbn; auto 20).
-  rewrite (no_us_contains title (s2l "~Log_Parameter") H) by (cbn; auto 20). reflexivity.
+  rewrite (no_us_contains title (s2l "~Log_Parameter") H) by (cbn; auto 20). unfold ch_us. rewrite H, andb_false_r. reflexivity.
 Qed.
-Lemma route_W title sec l : in_str 95 title = false ->
-  route title 87 sec l = mklas (l_version l) sec (l_curves l) (l_params l) (l_other l) (l_custom l) (l_data l) (l_engine_numpy l).
+Lemma route_W v3 title sec l : in_str 95 title = false ->
+  route v3 title 87 sec l = mklas (l_version l) sec (l_curves l) (l_params l) (l_other l) (l_custom l) (l_data l) (l_engine_numpy l).
 Proof.
   intros H. unfold route. rewrite (no_us_contains title (s2l "~Log_Definition") H) by (cbn; auto 20).
-  rewrite (no_us_contains title (s2l "~Log_Parameter") H) by (cbn; auto 20). reflexivity.
+  rewrite (no_us_contains title (s2l "~Log_Parameter") H) by (cbn; auto 20). unfold ch_us. rewrite H, andb_false_r. reflexivity.
 Qed.
-Lemma route_C title sec l : in_str 95 title = false ->
-  route title 67 sec l = mklas (l_version l) (l_well l) sec (l_params l) (l_other l) (l_custom l) (l_data l) (l_engine_numpy l).
-Proof. intros H. unfold route. unfold ch_us. rewrite H. reflexivity. Qed.
-Lemma route_P title sec l : in_str 95 title = false ->
-  route title 80 sec l = mklas (l_version l) (l_well l) (l_curves l) sec (l_other l) (l_custom l) (l_data l) (l_engine_numpy l).
+Lemma route_C v3 title sec l : in_str 95 title = false ->
+  route v3 title 67 sec l = mklas (l_version l) (l_well l) sec (l_params l) (l_other l) (l_custom l) (l_data l) (l_engine_numpy l).
+Proof. intros H. unfold route. unfold ch_us. rewrite H, andb_false_r. reflexivity. Qed.
+Lemma route_P v3 title sec l : in_str 95 title = false ->
+  route v3 title 80 sec l = mklas (l_version l) (l_well l) (l_curves l) sec (l_other l) (l_custom l) (l_data l) (l_engine_numpy l).
 Proof.
-  intros H. unfold route. unfold ch_us. rewrite H.
+  intros H. unfold route. unfold ch_us. rewrite H, andb_false_r.
   rewrite (no_us_contains title (s2l "~Log_Definition") H) by (cbn; auto 20). reflexivity.
 Qed.
 
@@ -142,7 +142,7 @@ Proof.
                           (find_val tr (s2l "DLM") iV (VStr (s2l "SPACE")))
                           (mklas (mksect iV tr) (l_well empty_las) (l_curves empty_las) (l_params empty_las)
                                  (l_other empty_las) (l_custom empty_las) (l_data empty_las) (l_engine_numpy empty_las)) [] []).
-  { subst ps1. unfold hdr_step. cbv zeta. rewrite E1, (route_V T1 _ _ U1). reflexivity. }
+  { subst ps1. unfold hdr_step. cbv zeta. rewrite E1, (route_V _ T1 _ _ U1). reflexivity. }
   rewrite P1. clear P1 ps1.
   (* ~Well *)
   match goal with |- context [step_section o ls ?ps p2] => set (ps1 := ps) end.
@@ -152,7 +152,7 @@ Proof.
   assert (P2 : ps2 = mkps (p_version ps1) (p_wrapped ps1) (find_opt tr (s2l "NULL") iW None) (p_dlm ps1)
                           (mklas (mksect iV tr) (mksect iW tr) (l_curves empty_las) (l_params empty_las)
                                  (l_other empty_las) (l_custom empty_las) (l_data empty_las) (l_engine_numpy empty_las)) [] []).
-  { subst ps2. unfold hdr_step. cbv zeta. rewrite E2, (route_W T2 _ _ U2). reflexivity. }
+  { subst ps2. unfold hdr_step. cbv zeta. rewrite E2, (route_W _ T2 _ _ U2). reflexivity. }
   rewrite P2. clear P2 ps2.
   (* ~Curves *)
   match goal with |- context [step_section o ls ?ps p3] => set (ps2 := ps) end.
@@ -162,7 +162,7 @@ Proof.
   assert (P3 : ps3 = mkps (p_version ps1) (p_wrapped ps1) (find_opt tr (s2l "NULL") iW None) (p_dlm ps1)
                           (mklas (mksect iV tr) (mksect iW tr) (mksect iC tr) (l_params empty_las)
                                  (l_other empty_las) (l_custom empty_las) (l_data empty_las) (l_engine_numpy empty_las)) [] []).
-  { subst ps3. unfold hdr_step. cbv zeta. rewrite E3, (route_C T3 _ _ U3). reflexivity. }
+  { subst ps3. unfold hdr_step. cbv zeta. rewrite E3, (route_C _ T3 _ _ U3). reflexivity. }
   rewrite P3. clear P3 ps3.
   (* ~Params *)
   match goal with |- context [step_section o ls ?ps p4] => set (ps3 := ps) end.
@@ -172,7 +172,7 @@ Proof.
   assert (P4 : ps4 = mkps (p_version ps1) (p_wrapped ps1) (find_opt tr (s2l "NULL") iW None) (p_dlm ps1)
                           (mklas (mksect iV tr) (mksect iW tr) (mksect iC tr) (mksect iP tr)
                                  (l_other empty_las) (l_custom empty_las) (l_data empty_las) (l_engine_numpy empty_las)) [] []).
-  { subst ps4. unfold hdr_step. cbv zeta. rewrite E4, (route_P T4 _ _ U4). reflexivity. }
+  { subst ps4. unfold hdr_step. cbv zeta. rewrite E4, (route_P _ T4 _ _ U4). reflexivity. }
   rewrite P4. clear P4 ps4.
   (* ~Other *)
   rewrite step_section_other by (rewrite E5; exact Y5).
